@@ -48,7 +48,35 @@ P_UNIT = proj_lines({"r", "panic", "error"})
 
 # ------------------------------------------------------------------ app streams
 
-NO_EVENT_BLOCKERS = ["press", "justpress", "release", "hold", "holdrel", "tap", "pulse", "chord", "sscript", "sact"]
+RAWDIM = {"key": 0, "mbtn": 0, "padbtn": 0, "padaxis": 1, "motion": 2, "wheel": 2}
+
+
+def with_loggers(scenarios, first_id=9000):
+    """gives every `in` item of hand-written scenarios a logging identity modifier in front (the `raw` fact of tools/facts.py)"""
+    out = []
+    for sc in scenarios:
+        i = first_id
+        new = []
+        for l in sc:
+            new.append(l)
+            t = l.split()
+            if t[0] == "in":
+                new.append(f"imod {i} sadd {RAWDIM[t[1]]} 0 0 0")
+                i += 1
+        out.append(new)
+    return out
+
+
+# Streams of the "core flow" properties use only the harness' scripted conditions and custom modifiers, so that what they
+# exercise does not depend on the built-in conditions / modifiers (which have their own properties C11 / C13 / C18).
+SCRIPTED = ["sscript"] * 4 + ["sact"] * 2
+CUSTOM_MODS = ["sadd", "sconv"]
+# ... and, where consumption is not the subject, only actions that do not consume their inputs, so that the order in which
+# contexts and actions are evaluated (C06, C13) and what is consumed (C05) cannot reach them
+NONCONSUMING = [a for a in range(32) if (a // 4) % 2 == 1]
+# ... and, where the device is not the subject, plain keys and mouse buttons without modifier requirements (what exactly a
+# binding reads from which device is C15 / C16 / C05 / C08)
+PLAIN = dict(input_kinds=["key"] * 4 + ["mbtn"], modmask_p=0.0, pads=(0, 0))
 
 
 def stream_app(prof, n_quick, n_thorough, prefix):
@@ -74,8 +102,7 @@ def scripted_states_scenarios(prefix, length):
 
 
 def c01_streams(seed, tier):
-    prof = Profile(cond_kinds=["sscript"] * 4 + ["sact", "hold", "press", "release", "pulse", "blockby", "chord"],
-                   n_aconds=(0, 2), n_iconds=(0, 2), lifecycle_p=0.03)
+    prof = Profile(**PLAIN, actions=NONCONSUMING, cond_kinds=SCRIPTED, mod_kinds=CUSTOM_MODS, n_aconds=(0, 2), n_iconds=(0, 2), lifecycle_p=0.03)
     n = 400 if tier == "quick" else 20000
     sc = gen.app_batch(seed, n, prof, "c01r")
     sc += scripted_states_scenarios("c01x", 3 if tier == "quick" else 4)
@@ -83,7 +110,7 @@ def c01_streams(seed, tier):
 
 
 def c02_streams(seed, tier):
-    prof = Profile(cond_kinds=NO_EVENT_BLOCKERS, lifecycle_p=0.25, react_p=0.5, post_p=0.1, n_entities=(1, 3),
+    prof = Profile(**PLAIN, actions=NONCONSUMING, cond_kinds=SCRIPTED, mod_kinds=CUSTOM_MODS, lifecycle_p=0.25, react_p=0.5, post_p=0.1, n_entities=(1, 3),
                    n_ctx=(1, 3), n_frames=(6, 20))
     n = 400 if tier == "quick" else 15000
     sc = gen.app_batch(seed, n, prof, "c02r")
@@ -142,17 +169,16 @@ def c03_exhaustive(prefix, maxlen):
 
 
 def c03_streams(seed, tier):
-    prof = Profile(cond_kinds=["sscript"] * 5 + ["sact"] * 2 + ["press", "hold", "blockby"], n_iconds=(0, 4), n_aconds=(0, 4),
+    prof = Profile(**PLAIN, actions=NONCONSUMING, cond_kinds=SCRIPTED, n_iconds=(0, 4), n_aconds=(0, 4),
                    n_inputs=(1, 3), n_actions=(1, 2), n_ctx=(1, 1), n_entities=(1, 1), lifecycle_p=0.0,
-                   mod_kinds=["negate", "scale", "sadd", "sconv"])
+                   mod_kinds=CUSTOM_MODS)
     n = 300 if tier == "quick" else 10000
     return c03_exhaustive("c03x", 2 if tier == "quick" else 3) + gen.app_batch(seed, n, prof, "c03r")
 
 
 def c04_streams(seed, tier):
-    prof = Profile(n_inputs=(0, 5), n_imods=(0, 3), n_amods=(0, 3), n_iconds=(0, 1), n_aconds=(0, 1),
-                   cond_kinds=["sact", "sscript", "press", "hold", "release"],
-                   mod_kinds=["negate", "scale", "swizzle", "swizzle", "dzaxial", "sconv", "sconv", "sadd", "dscale"],
+    prof = Profile(actions=NONCONSUMING, n_inputs=(0, 5), n_imods=(0, 3), n_amods=(0, 3), n_iconds=(0, 1), n_aconds=(0, 1),
+                   cond_kinds=SCRIPTED, mod_kinds=["sconv", "sadd", "sadd"], log_raw_p=0.5,
                    n_ctx=(1, 2), lifecycle_p=0.02, toggle_p=0.45)
     return gen.app_batch(seed, 500 if tier == "quick" else 25000, prof, "c04r")
 
@@ -160,8 +186,8 @@ def c04_streams(seed, tier):
 def c05_streams(seed, tier):
     prof = Profile(n_ctx=(2, 4), n_actions=(1, 3), n_inputs=(1, 3), keys=[0, 1], modmask_p=0.45,
                    input_kinds=["key"] * 5 + ["mbtn"] * 2 + ["motion", "wheel", "padbtn", "padaxis"],
-                   cond_kinds=["sact", "sscript", "press", "hold", "release", "justpress", "tap"], n_imods=(0, 1), n_amods=(0, 0),
-                   mod_kinds=["negate", "scale", "sconv"], toggle_p=0.5, lifecycle_p=0.02,
+                   cond_kinds=SCRIPTED, n_imods=(0, 1), n_amods=(0, 0), log_raw_p=1.0,
+                   mod_kinds=CUSTOM_MODS, toggle_p=0.5, lifecycle_p=0.02,
                    actions=[0, 1, 2, 3, 4, 5, 6, 7, 16, 17, 20, 21], pad_ctx_p=0.0)
     return gen.app_batch(seed, 500 if tier == "quick" else 20000, prof, "c05r")
 
@@ -190,18 +216,19 @@ def c06_permutations(prefix, k):
 
 def c06_streams(seed, tier):
     prof = Profile(n_ctx=(3, 6), n_actions=(1, 2), n_inputs=(1, 2), keys=[0, 1], lifecycle_p=0.3, n_entities=(2, 3),
-                   cond_kinds=["press", "sact", "hold"], n_iconds=(0, 1), n_aconds=(0, 0), n_imods=(0, 0), n_amods=(0, 0),
+                   cond_kinds=SCRIPTED, n_iconds=(0, 1), n_aconds=(0, 0), n_imods=(0, 0), n_amods=(0, 0), log_raw_p=1.0,
                    input_kinds=["key"], actions=[0, 1, 2, 3, 16, 17], modmask_p=0.0, pads=(0, 0))
     sc = c06_permutations("c06x", 3 if tier == "quick" else 4)
     if tier != "quick":
         sc += c06_permutations("c06y", 6)
+    sc = with_loggers(sc)
     return sc + gen.app_batch(seed, 300 if tier == "quick" else 8000, prof, "c06r")
 
 
 def c07_streams(seed, tier):
     prof = \
-        Profile(n_ctx=(2, 4), n_entities=(2, 3), lifecycle_p=0.6, post_p=0.1, react_p=0.2, n_frames=(6, 16),
-                n_actions=(1, 2), n_inputs=(1, 2), keys=[0, 1], cond_kinds=["press", "hold", "sact"], n_variants=(1, 3))
+        Profile(**PLAIN, actions=NONCONSUMING, n_ctx=(2, 4), n_entities=(2, 3), lifecycle_p=0.6, post_p=0.1, react_p=0.2, n_frames=(6, 16),
+                n_actions=(1, 2), n_inputs=(1, 2), keys=[0, 1], cond_kinds=SCRIPTED, mod_kinds=CUSTOM_MODS, n_variants=(1, 3))
     sc = gen.app_batch(seed, 400 if tier == "quick" else 12000, prof, "c07r")
     sc += lifecycle_exhaustive("c07x", 3 if tier == "quick" else 4)
     return sc
@@ -209,9 +236,9 @@ def c07_streams(seed, tier):
 
 def c08_streams(seed, tier):
     prof = Profile(held_at_insert_p=0.9, lifecycle_p=0.25, n_ctx=(2, 3), keys=[0, 1, 2], modmask_p=0.4, toggle_p=0.3,
-                   cond_kinds=["press", "justpress", "hold", "sact", "release", "tap"], n_iconds=(0, 2), n_aconds=(0, 1),
+                   cond_kinds=SCRIPTED, mod_kinds=CUSTOM_MODS, n_iconds=(0, 2), n_aconds=(0, 1), log_raw_p=1.0,
                    ui_p=0.1, input_kinds=["key"] * 5 + ["mbtn"] * 2 + ["padbtn", "padaxis"])
-    return gen.app_batch(seed, 400 if tier == "quick" else 15000, prof, "c08r") + c08_directed()
+    return gen.app_batch(seed, 400 if tier == "quick" else 15000, prof, "c08r") + with_loggers(c08_directed())
 
 
 def c08_directed():
@@ -233,14 +260,14 @@ def c08_directed():
 
 
 def c10_streams(seed, tier):
-    prof = Profile(cond_kinds=["sscript"] * 4 + ["hold", "pulse", "tap", "release"], time_p=0.5, n_ctx=(1, 2), lifecycle_p=0.03,
+    prof = Profile(**PLAIN, actions=NONCONSUMING, cond_kinds=SCRIPTED, mod_kinds=CUSTOM_MODS, time_p=0.5, n_ctx=(1, 2), lifecycle_p=0.03,
                    n_aconds=(0, 2), n_iconds=(0, 1))
     return gen.app_batch(seed, 400 if tier == "quick" else 15000, prof, "c10r") + scripted_states_scenarios("c10x", 3)
 
 
 def c12_streams(seed, tier):
-    prof = Profile(n_imods=(0, 3), n_iconds=(0, 3), n_amods=(0, 3), n_aconds=(0, 3), n_inputs=(0, 4), held_at_insert_p=0.4,
-                   cond_kinds=["sscript"] * 4 + ["sact", "press", "hold", "blockby", "chord", "pulse"], lifecycle_p=0.05)
+    prof = Profile(**PLAIN, actions=NONCONSUMING, n_imods=(0, 3), n_iconds=(0, 3), n_amods=(0, 3), n_aconds=(0, 3), n_inputs=(0, 4), held_at_insert_p=0.0,
+                   cond_kinds=SCRIPTED, mod_kinds=CUSTOM_MODS, lifecycle_p=0.0)
     return gen.app_batch(seed, 400 if tier == "quick" else 15000, prof, "c12r")
 
 
@@ -282,15 +309,15 @@ def c13_orders(prefix):
 
 
 def c13_streams(seed, tier):
-    prof = Profile(n_actions=(2, 5), cond_kinds=["chord", "chord", "blockby", "blockby", "press", "hold", "sact"],
-                   mod_kinds=["accby", "accby", "scale", "negate"], n_ctx=(1, 2), rebind_p=0.5, n_amods=(0, 2), n_aconds=(0, 2),
-                   actions=list(range(12)), lifecycle_p=0.02)
+    prof = Profile(**PLAIN, n_actions=(2, 5), cond_kinds=["chord", "chord", "blockby", "blockby"] + SCRIPTED[:3],
+                   mod_kinds=["accby", "accby"] + CUSTOM_MODS, n_ctx=(1, 2), rebind_p=0.5, n_amods=(0, 2), n_aconds=(0, 2),
+                   actions=NONCONSUMING[:12], lifecycle_p=0.02)
     return c13_orders("c13x") + gen.app_batch(seed, 300 if tier == "quick" else 15000, prof, "c13r")
 
 
 def c14_streams(seed, tier):
-    prof = Profile(n_entities=(2, 4), ctx_pool=[0, 1, 2, 3, 5], n_ctx=(2, 3), lifecycle_p=0.35, react_p=0.3, n_variants=(1, 3),
-                   pads=(0, 2), pad_ctx_p=0.5, cond_kinds=NO_EVENT_BLOCKERS)
+    prof = Profile(actions=NONCONSUMING, n_entities=(2, 4), ctx_pool=[0, 1, 2, 3, 5], n_ctx=(2, 3), lifecycle_p=0.35, react_p=0.3, n_variants=(1, 3),
+                   pads=(0, 2), pad_ctx_p=0.5, cond_kinds=SCRIPTED, mod_kinds=CUSTOM_MODS)
     return gen.app_batch(seed, 400 if tier == "quick" else 12000, prof, "c14r")
 
 
@@ -326,17 +353,18 @@ def c15_masks(prefix):
 def c15_streams(seed, tier):
     prof = Profile(modmask_p=0.6, pads=(1, 3), pad_ctx_p=0.5, noise_keys=[4, 5, 6], n_ctx=(1, 3),
                    input_kinds=["key"] * 3 + ["mbtn"] * 2 + ["motion", "wheel", "padbtn", "padbtn", "padaxis", "padaxis"],
-                   cond_kinds=["press", "sact"], n_iconds=(0, 1), n_aconds=(0, 0), n_imods=(0, 1), n_amods=(0, 0),
-                   mod_kinds=["negate", "scale"], actions=[4, 5, 6, 7, 20, 21, 22, 23, 28, 29], lifecycle_p=0.02)
+                   cond_kinds=SCRIPTED, n_iconds=(0, 1), n_aconds=(0, 0), n_imods=(0, 1), n_amods=(0, 0), log_raw_p=1.0,
+                   mod_kinds=CUSTOM_MODS, actions=[4, 5, 6, 7, 20, 21, 22, 23, 28, 29], lifecycle_p=0.0)
     sc = gen.app_batch(seed, 300 if tier == "quick" else 15000, prof, "c15r")
-    sc += c15_masks("c15x") if tier != "quick" else c15_masks("c15x")[:16:3]
+    sc += with_loggers(c15_masks("c15x") if tier != "quick" else c15_masks("c15x")[:16:3])
     return sc
 
 
 def c16_streams(seed, tier):
     prof = Profile(ui_p=0.35, modmask_p=0.3, pads=(0, 2), n_ctx=(1, 3),
                    input_kinds=["key"] * 2 + ["mbtn"] * 3 + ["motion"] * 2 + ["wheel"] * 2 + ["padbtn", "padaxis"],
-                   cond_kinds=["press", "sact", "hold"], n_iconds=(0, 1), n_aconds=(0, 1), lifecycle_p=0.02)
+                   cond_kinds=SCRIPTED, mod_kinds=CUSTOM_MODS, n_iconds=(0, 1), n_aconds=(0, 1), lifecycle_p=0.0, log_raw_p=1.0,
+                   actions=[4, 5, 6, 7, 20, 21, 22, 23, 28, 29])
     return gen.app_batch(seed, 300 if tier == "quick" else 10000, prof, "c16r")
 
 
@@ -525,7 +553,7 @@ def c18_streams(seed, tier):
         scs.append([f"scenario c18u{i}"] + lines + ["endscenario"]); i += 1
     # the same modifiers inside a real context
     prof = Profile(mod_kinds=["negate", "scale", "swizzle", "dzaxial", "dscale", "accby"], n_imods=(1, 3), n_amods=(0, 2),
-                   cond_kinds=["press", "sact"], n_iconds=(0, 1), n_aconds=(0, 0), n_ctx=(1, 1), lifecycle_p=0.0, time_p=0.3,
+                   cond_kinds=SCRIPTED, n_iconds=(0, 1), n_aconds=(0, 0), n_ctx=(1, 1), lifecycle_p=0.0, time_p=0.3,
                    input_kinds=["key"] * 2 + ["motion", "wheel", "padaxis", "padaxis"], pads=(1, 1), pad_ctx_p=0.0)
     return scs + gen.app_batch(seed, 200 if tier == "quick" else 8000, prof, "c18r")
 
@@ -584,8 +612,8 @@ def c19_route_pairs(seed, n):
     r = random.Random(seed)
     out = []
     for i in range(n):
-        prof = Profile(n_ctx=(1, 1), n_actions=(1, 2), n_inputs=(2, 5), n_imods=(0, 1), n_iconds=(0, 1), each_p=0.6,
-                       preset_p=0.25, lifecycle_p=0.03, rebind_p=0.3, keys=[0, 1, 2, 3, 16, 17], pads=(0, 1))
+        prof = Profile(actions=NONCONSUMING, n_ctx=(1, 1), n_actions=(1, 2), n_inputs=(2, 5), n_imods=(0, 1), n_iconds=(0, 1), each_p=0.6,
+                       cond_kinds=SCRIPTED, mod_kinds=CUSTOM_MODS, preset_p=0.25, lifecycle_p=0.03, rebind_p=0.3, keys=[0, 1, 2, 3, 16, 17], pads=(0, 1))
         base = gen.app_batch(r.randint(0, 10 ** 9), 1, prof, "x")[0]
         for route in (0, 1, 2, 3):
             sc = []
@@ -598,8 +626,8 @@ def c19_route_pairs(seed, n):
                         sc.append(f"route {route}")
             out.append(sc)
         # plain-input blocks: routes 4 / 5 as well
-        prof2 = Profile(n_ctx=(1, 1), n_actions=(1, 2), n_inputs=(2, 5), n_imods=(0, 0), n_iconds=(0, 0), each_p=0.7,
-                        preset_p=0.0, lifecycle_p=0.02, keys=[0, 1, 2, 3], pads=(0, 1))
+        prof2 = Profile(actions=NONCONSUMING, n_ctx=(1, 1), n_actions=(1, 2), n_inputs=(2, 5), n_imods=(0, 0), n_iconds=(0, 0), each_p=0.7,
+                        cond_kinds=SCRIPTED, mod_kinds=CUSTOM_MODS, preset_p=0.0, lifecycle_p=0.02, keys=[0, 1, 2, 3], pads=(0, 1))
         base = gen.app_batch(r.randint(0, 10 ** 9), 1, prof2, "x")[0]
         for route in (0, 1, 4, 5):
             sc = []
@@ -615,8 +643,8 @@ def c19_route_pairs(seed, n):
 
 
 def c19_streams(seed, tier):
-    prof = Profile(route_p=0.6, each_p=0.4, preset_p=0.3, n_inputs=(1, 5), rebind_p=0.4, n_ctx=(1, 2), lifecycle_p=0.03,
-                   keys=[0, 1, 2, 3, 16, 17])
+    prof = Profile(actions=NONCONSUMING, route_p=0.6, each_p=0.4, preset_p=0.3, n_inputs=(1, 5), rebind_p=0.4, n_ctx=(1, 2), lifecycle_p=0.03,
+                   cond_kinds=SCRIPTED, mod_kinds=CUSTOM_MODS, keys=[0, 1, 2, 3, 16, 17])
     n = 150 if tier == "quick" else 6000
     return c19_compass("c19c") + c19_route_pairs(seed, 40 if tier == "quick" else 1500) + gen.app_batch(seed, n, prof, "c19r")
 
@@ -640,8 +668,8 @@ def c09_directed(prefix):
 
 
 def c09_streams(seed, tier):
-    prof = Profile(inject_first_p=0.4, inject_events_p=0.8, post_p=0.1, react_p=0.2, n_ctx=(1, 2),
-                   cond_kinds=["press", "justpress", "release", "hold", "holdrel", "tap", "pulse", "sact"], time_p=0.2,
+    prof = Profile(actions=NONCONSUMING, inject_first_p=0.4, inject_events_p=0.8, post_p=0.1, react_p=0.2, n_ctx=(1, 2),
+                   cond_kinds=SCRIPTED, mod_kinds=CUSTOM_MODS, time_p=0.2,
                    input_kinds=["key"] * 5 + ["mbtn"] * 2 + ["motion", "wheel"], pads=(0, 0))
     return c09_directed("c09d") + gen.app_batch(seed, 300 if tier == "quick" else 10000, prof, "c09r")
 
